@@ -168,6 +168,22 @@ func VF_C17_c() {
 	if stops == 1 {
 		vf.Assert(vf.Implies(consecutive, acked == total), ob)
 	}
+	// completeness: if every peer answered truthfully (expected heights, blocks hash-linked inside the chunk), then
+	// whatever the arrival order all blocks are connected and the session is completed exactly once
+	honest := true
+	g := 0
+	for _, c := range chunks {
+		for i, b := range c.blocks {
+			honest = vf.And(honest, b.BlockNo() == a+1+uint64(g))
+			if i > 0 {
+				honest = vf.And(honest, bytes.Equal(b.GetHeader().GetPrevBlockHash(), c.blocks[i-1].GetHash()))
+			}
+			g++
+		}
+	}
+	vf.Assert(vf.Implies(honest, !failed), ob)
+	vf.Assert(vf.Implies(honest, acked == total), ob)
+	vf.Assert(vf.Implies(honest, stops == 1), ob)
 	vf.Observe("delivered", len(delivered))
 	vf.Observe("acked", acked)
 	vf.Observe("stops", stops)
